@@ -5,7 +5,7 @@ import tpcommon as T
 from engine import Op, set_mode
 
 PROP = "C04"
-LEAN_MODULES = ["IsoDT.Props.C04"]
+LEAN_MODULES = ["IsoDT.Props.C04", "IsoDT.Props.C02q"]
 RULE = ("ordered pairs at a chosen instant distance (0 .. thousands of years, across year 0) in mixed "
         "representations / offsets / 24:00; non-trivial when a borrow (s, min, h or day) occurs or the "
         "operands differ in representation or offset; distinct by (op, arguments)")
@@ -158,8 +158,105 @@ def _f13(op, a, out, msg):
     return abs(s) == 60.0 and abs(h) < 24 and abs(mi) < 60
 
 
-KNOWN_PREDICATES = {"float_rounding_seconds_sixty": _f13}
+import qcommon as Q          # noqa: E402
+from fractions import Fraction as _Fr   # noqa: E402
+from props.c02 import gen_qpair   # noqa: E402
+
+
+class SubQ(Op):
+    """a - b on points with fractional / absent slots against the rational model subTPQ (Props/C02q:
+    C04_sub_rat).  Compared: the length of the difference to the microsecond.  The property's shape
+    clauses (|h| < 24, |m|, |s| < 60, one sign) are judged on the implementation's own answer; when the
+    two operands denote exactly the same instant through slots binary64 cannot hold, the float answer
+    is rounding noise of either sign (known finding F17: mixed signs, or RecursionError because both
+    a > b and b > a hold)."""
+    prop = PROP
+    name = "subq"
+
+    def from_corpus(self, a):
+        return (a[0], Q.norm_point(a[1]), Q.norm_point(a[2]))
+
+    def gen(self, rng, tier, boost):
+        n = (2000 if tier == "quick" else 30000) * boost
+        if getattr(self, "shard", None):
+            n = n // self.shard[1] + 1
+        for _ in range(n):
+            m = gens.mode(rng)
+            a, b = gen_qpair(rng, m)
+            yield (m, a, b)
+
+    def line(self, a):
+        return "subq %s %s %s" % (a[0], Q.tokens(a[1]), Q.tokens(a[2]))
+
+    def impl(self, a):
+        set_mode(a[0])
+        x, y = Q.mk_point(a[1]), Q.mk_point(a[2])
+        try:
+            d = x - y
+        except RecursionError:
+            self.last = None
+            return "RecursionError"
+        parts = (d.years, d.months, d.weeks if d.weeks is not None else 0, d.days, d.hours, d.minutes, d.seconds)
+        self.last = parts
+        total = 86400 * _Fr(parts[3]) + 3600 * _Fr(parts[4]) + 60 * _Fr(parts[5]) + _Fr(parts[6])
+        if parts[0] or parts[1] or parts[2]:
+            return "NOMINAL %r" % (parts,)
+        return "len %d" % round(total * 10 ** 6)
+
+    def canon_model(self, a, out):
+        f = out.split()
+        if len(f) != 4:
+            return out
+        if self.float_domain(a):
+            # exactly equal instants through values binary64 cannot hold: the implementation's answer is
+            # rounding noise (or RecursionError), judged by the oracle / known finding F17, not by the model
+            return self.impl(a)
+        d, h, mi, s_ = (Q.parse_q(t) for t in f)
+        return "len %d" % round((86400 * d + 3600 * h + 60 * mi + s_) * 10 ** 6)
+
+    def float_domain(self, a):
+        return Q.float_noise_pair(a[0], a[1], a[2])
+
+    def oracle(self, a, out):
+        m, x, y = a
+        want = Q.inst(m, x) - Q.inst(m, y)
+        what = "%s - %s in %s" % (Q.describe(x), Q.describe(y), m)
+        if not out.startswith("len "):
+            return "%s failed: %s" % (what, out)
+        if abs(int(out[4:]) - want * 10 ** 6) > 1:
+            return "%s has length %s us, the instants differ by %s s" % (what, out[4:], float(want))
+        _, _, _, d, h, mi, s_ = self.last
+        if not (abs(h) < 24 and abs(mi) < 60 and abs(s_) < 60):
+            return "%s: a time unit is out of range: %r" % (what, (d, h, mi, s_))
+        if min(d, h, mi, s_) < 0 < max(d, h, mi, s_):
+            return "%s: mixed signs: %r" % (what, (d, h, mi, s_))
+
+    def label(self, a):
+        return "subq/%s%s/%s" % (Q.form_of(a[1]), Q.form_of(a[2]),
+                                 "equal" if Q.inst(a[0], a[1]) == Q.inst(a[0], a[2]) else "distinct")
+
+
+def _f17sub(op, a, out, msg):
+    """F17 in subtraction: exactly equal instants, a slot binary64 cannot hold: the float difference is
+    rounding noise (mixed signs / seconds of 60 / RecursionError from the inconsistent comparison)."""
+    if op.name != "subq":
+        return False
+    if not Q.float_noise_pair(a[0], a[1], a[2]):
+        return False
+    return "mixed signs" in msg or "RecursionError" in msg or "out of range" in msg
+
+
+def _f13q(op, a, out, msg):
+    """F13 seen through subq: only |seconds| == 60.0 exactly, everything else in range and the length right."""
+    if op.name != "subq" or "out of range" not in msg or op.last is None:
+        return False
+    _, _, _, d, h, mi, s_ = op.last
+    return abs(s_) == 60.0 and abs(h) < 24 and abs(mi) < 60
+
+
+KNOWN_PREDICATES = {"float_rounding_seconds_sixty": lambda op, a, out, msg: _f13(op, a, out, msg) or _f13q(op, a, out, msg),
+                    "float_equal_instants_compare_unequal": _f17sub}
 
 
 def ops():
-    return [SubTP(), Identities(), SubFrac()]
+    return [SubTP(), Identities(), SubFrac(), SubQ()]
